@@ -50,6 +50,11 @@ def names_trace(ctx):
             X2, back = inv.transform(X1, ty)
             e["roundtrip"] = bool(numpy.allclose(back[:4], y[:4], rtol=1e-9, atol=0) and numpy.isnan(back[4])
                                   and numpy.array_equal(X1, X) and numpy.array_equal(X2, X))
+            # targets that are counts, held in an integer array: the transformed values are not integers
+            yi = numpy.array([1, 2, 3, 7], dtype=numpy.int64)
+            _, ti = tr.transform(X[:4].copy(), yi.copy())
+            _, bi = inv.transform(X[:4].copy(), ti)
+            e["roundtrip"] = bool(e["roundtrip"] and numpy.allclose(numpy.asarray(bi, dtype=float), yi, rtol=1e-9, atol=0))
             # the far ends of the domain, where the two functions are still exact inverses in double precision
             far = {"LOG": [2.0 ** -60, 1e-300, 1e300], "EXP": [-40.0, -700.0, 700.0]}.get(e["cls"])
             if far:
@@ -103,7 +108,10 @@ def tt2c_trace(tid, labels, y, seed, probe):
     else:
         tt = SHARED.setdefault("c", TransformedTargetClassifier2(classifier=stubs.RecClf(), transformer="permute"))
         tt.set_params(transformer=P(random_state=seed))
-    tt.fit(X, ya)
+    if seed % 4 == 1:        # a weighted fit trains the inner classifier on the same (transformed) labels
+        tt.fit(X, ya, sample_weight=numpy.array([1.0 + (i % 2) for i in range(n)]))
+    else:
+        tt.fit(X, ya)
     inner_train = [int(v) for nm, f in stubs.LOG if nm == "fitclf" for v in f["ys"]]
     sigma = [[int(k), int(v)] for k, v in tt.transformer_.permutation_.items()]
     if seed % 3 == 0:
